@@ -17,3 +17,5 @@ import RdfModel.Props.C12Facts
 #print axioms RdfModel.C12.gen_hierarchical_schemes
 #print axioms RdfModel.C12.gen_force_fragment
 #print axioms RdfModel.C12.gen_resolvePath_literals
+#print axioms RdfModel.C12.gen_parsedIRI_api
+#print axioms RdfModel.C12.gen_dropFragment_body
